@@ -308,7 +308,10 @@ class ExprMixin(object):
         if op == '=':
             return self.do_assign(a, b, '=', n)
         if op == ',':
-            self.ev(a)
+            x = self.ev(a)
+            if isinstance(x, CommaInit):
+                x.push(self, self.rd(self.ev(b)), n)      # Eigen comma initialiser:  m << a, b, c
+                return x
             return self.ev(b)
         if op in ('&&', '||'):
             x = self.truth(self.ev(a), a)
